@@ -5,6 +5,15 @@ Correspondence: Lean path routines / mapPath / SCP sink / recursive-get name wal
 posixpath, SFTPServer.map_path, asyncssh.scp client sink and SFTPClient.get against hostile in-process peers.
 Oracle: a real chrooted SFTP server and real SCP/SFTP download clients in a scratch directory; nothing
 outside the root / destination may be read, created or modified.
+
+After the model/code audit: glob downloads are modelled too (`mget`: SFTPGlob._match_pattern's name filter and the
+basename `_begin_copy` uses as the local top-level name; theorem mget_confined, witness
+old_mget_dotdot_basename_escapes), and the path SFTPServer.readlink resolves under a chroot (`readlinkBase`;
+readlink_independent_of_cwd, witness old_readlink_depends_on_server_cwd).  The two repairs are detected by the
+translator (_c13_translate.py -> Gen/C13.lean: globRejectsSlash, readlinkFromLinkDir).  The oracle runs
+mget(pattern, recurse=True) against a hostile server whose listing holds names such as `x/..`, and asks a chrooted
+server the same readlink with its process in two different directories outside the root.  Two more histories of
+the known symlink root cause (F5/F36) carry their own signatures.
 """
 
 from __future__ import annotations
@@ -23,13 +32,16 @@ scpmod = importlib.import_module('asyncssh.scp')   # `asyncssh.scp` the attribut
 
 import pair
 from vlib import (Ctx, CorrResult, OracleResult, Failure, Disagreement, Hist, hx, unhx, shrink_list)
+import props._c13_translate as _tr
 
 PROPERTY = 'C13'
 MANIFEST = {
     'text': 'Lean 4 theorems: for EVERY byte string the chroot mapping yields root + safe components '
             '(map_path_confined), for EVERY SCP record sequence and EVERY server name tree the download walk stays '
             'below the destination, also when the destination does not exist yet or is a regular file and the first record '
-            'names the destination itself (scp_sink_confined, scp_sink_new_destination_confined, sftp_get_confined). The models are tied to the code by a '
+            'names the destination itself (scp_sink_confined, scp_sink_new_destination_confined, sftp_get_confined), and a '
+            'glob download (mget) derives only safe top-level names from EVERY listing (mget_confined); readlink under a chroot '
+            'resolves from the link\'s directory, never the server\'s cwd (readlink_independent_of_cwd). The models are tied to the code by a '
             'differential run (posixpath routines, SFTPServer.map_path, real scp()/sftp.get() against hostile '
             'in-process peers) and the property itself is evaluated on the real chrooted server over request '
             'histories. Histories involving symlinks are decided by the oracle only (two known findings).',
@@ -50,6 +62,30 @@ ASSUMPTIONS = [
 ]
 
 SECRET = b'TOP-SECRET-OUTSIDE-ROOT'
+
+SIG_MGET = 'sftp-mget-escape:glob-match-basename-dotdot'
+SIG_READLINK_CWD = 'sftp-server-readlink:relative-target-resolved-from-server-cwd'
+SIG_LATER_COMPONENT = 'sftp-server-escape:symlink-target-through-later-created-link'
+SIG_HARDLINKED_SYMLINK = 'sftp-server-escape:relative-symlink-hard-linked-elsewhere'
+
+
+def translate(ctx: Ctx) -> Dict[str, Any]:
+    return _tr.translate(ctx)
+
+
+_FLAGS: Dict[str, int] = {}
+
+
+def flags() -> Dict[str, int]:
+    """which of the repairs the tree being checked has (same detection as Gen/C13.lean)"""
+    if not _FLAGS:
+        try:
+            info = _tr.generate()[1]
+            _FLAGS.update(glob=int(info.get('glob_rejects_slash', False)),
+                          rl=int(info.get('readlink_from_link_dir', False)))
+        except Exception:
+            _FLAGS.update(glob=0, rl=0)
+    return _FLAGS
 
 # ---------------------------------------------------------------------------
 # generators
@@ -318,6 +354,66 @@ async def run_get(tree: List[Node], dest: str) -> str:
     return res
 
 
+async def run_mget(tree: List[Node], dest: str, pattern: bytes = b'/src/*') -> str:
+    """mget(pattern, dest, recurse=True) against the hostile server: the top-level local names are derived by
+    the client from the names of the server's listing"""
+    c, s, hub = await pair.make_pair(server_opts=dict(sftp_factory=hostile_sftp_factory(tree)))
+    try:
+        async with c.start_sftp_client() as sftp:
+            await asyncio.wait_for(sftp.mget(pattern, dest, recurse=True), 20)
+        res = 'done'
+    except sftpmod.SFTPBadMessage:
+        res = 'aborted'
+    except asyncio.TimeoutError:
+        res = 'timeout'
+    except Exception as e:
+        res = 'exc:' + type(e).__name__
+    c.abort()
+    await pair.settle(10)
+    return res
+
+
+def changed_rel(before: Dict[str, Any], after: Dict[str, Any], base: str, dest: str) -> List[str]:
+    """paths created or modified, relative to `dest` (`../x` = outside it)"""
+    out = []
+    for k in sorted(set(before) | set(after)):
+        if before.get(k) != after.get(k):
+            out.append(os.path.relpath(os.path.join(base, k), dest))
+    return out
+
+
+def readlink_world(base: str) -> Tuple[str, List[Tuple[bytes, bytes]]]:
+    """a chroot with plain directories and a set of links (client path, target string on disk)"""
+    root = os.path.join(base, 'root')
+    os.makedirs(os.path.join(root, 'sub', 'deep'))
+    for rel in ('file.txt', 'sub/file.txt', 'sub/deep/g'):
+        with open(os.path.join(root, rel), 'wb') as f:
+            f.write(b'x')
+    links = []
+    targets = [b'file.txt', b'../file.txt', b'deep/g', b'./deep/../file.txt', b'nothing-here', b'../../outside',
+               b'..', b'.', os.fsencode(root) + b'/file.txt', os.fsencode(root) + b'/sub/../sub/deep', b'/etc',
+               b'sub/file.txt', b'../sub/deep/g', b'deep//g', b'../..']
+    for i, t in enumerate(targets):
+        for d in (b'/sub', b'', b'/sub/deep'):
+            cp = d + b'/l%d' % i
+            os.symlink(t, os.fsencode(root) + cp)
+            links.append((cp, t))
+    return root, links
+
+
+def impl_readlink(srv: Any, cwd: str, p: bytes) -> str:
+    old = os.getcwd()
+    os.chdir(cwd)
+    try:
+        return hx(srv.readlink(p))
+    except sftpmod.SFTPNoSuchFile:
+        return 'none'
+    except Exception as e:
+        return 'exc:' + type(e).__name__
+    finally:
+        os.chdir(old)
+
+
 def tree_tokens(tree: List[Node]) -> List[str]:
     out: List[str] = []
     for n in tree:
@@ -503,9 +599,60 @@ def correspondence(ctx: Ctx) -> CorrResult:
         expect.append(('sftp_get', {'tree': toks}, ';'.join(lst) + '|' + r))
         hist.hit('get:' + r)
 
+    # (5) glob download (mget) against a hostile server: the top-level names come from the server's listing too
+    mget_cases = [gen_tree(rng, 0, True) for _ in range(ctx.n(25, 300))]
+    mget_cases += [[Node('F', b'ok'), Node('D', b'x/..', [Node('F', b'pwn')])],
+                   [Node('D', b'..', [Node('F', b'up')]), Node('F', b'a')],
+                   [Node('D', b'd', [Node('F', b'a'), Node('D', b'e', [Node('F', b'../x')])]), Node('F', b'never')]]
+
+    async def run_mgets() -> List[Tuple[List[str], str]]:
+        out = []
+        for i, tree in enumerate(mget_cases):
+            base = os.path.join(scratch, f'mget{i}')
+            dest = os.path.join(base, 'outer', 'dest')
+            os.makedirs(dest)
+            before = snapshot(base)
+            r = await run_mget(tree, dest)
+            out.append((changed_rel(before, snapshot(base), base, dest), r))
+        return out
+    mget_out = pair.run(run_mgets(), timeout=600)
+    for tree, (lst, r) in zip(mget_cases, mget_out):
+        toks = tree_tokens(tree)
+        lines.append(f'mget {flags()["glob"]} {hx(b"/src")} ' + ' '.join(toks))
+        expect.append(('sftp_mget', {'tree': toks}, ';'.join(sorted(lst)) + '|' + r))
+        hist.hit('mget:' + r)
+    for i in range(ctx.n(200, 2000)):
+        p = gen_path(rng)
+        lines.append(f'basename {hx(p)}')
+        expect.append(('basename', {'path': p.hex()}, hx(posixpath.basename(p))))
+
+    # (6) SFTPServer.readlink under a chroot: real links in a real directory, the server's cwd varied
+    rbase = os.path.realpath(os.path.join(scratch, 'rl'))
+    os.makedirs(rbase)
+    rroot, rlinks = readlink_world(rbase)
+    cwds = [os.path.join(rbase, 'cwd-empty'), rroot, os.path.join(rroot, 'sub')]
+    os.makedirs(cwds[0])
+    rsrv = impl_server(os.fsencode(rroot))
+    for cp, t in rlinks:
+        for cwd in cwds:
+            lines.append(f'rlans {flags()["rl"]} {hx(os.fsencode(rroot))} {hx(os.fsencode(cwd))} {hx(cp)} {hx(t)}')
+            expect.append(('readlink', {'link': cp.decode(), 'target': t.decode(), 'cwd': os.path.relpath(cwd, rbase)},
+                           impl_readlink(rsrv, cwd, cp)))
+            hist.hit('readlink')
+
     # run the model ---------------------------------------------------------------
     out = ctx.model(DRIVER, lines)
     for line, (name, case, impl), mod in zip(lines, expect, out):
+        if name == 'sftp_mget':
+            paths, flag = model_paths(mod)
+            rel = sorted(set(os.path.normpath(q) for q in paths) - {'..', '.'})
+            mod = ';'.join(rel) + '|' + flag
+            # every match creates at least its own top-level path: no path and no abort = the glob matched
+            # nothing, which the client reports as SFTPNoSuchFile('No matches found')
+            if mod == '|done':
+                mod = '|nomatch'
+            if impl == '|exc:SFTPNoSuchFile':
+                impl = '|nomatch'
         if name in ('scp_sink', 'sftp_get'):
             paths, flag = model_paths(mod)
             m = ';'.join(sorted(set(paths))) if paths else ('-' if name == 'scp_sink' else '')
@@ -528,7 +675,7 @@ def correspondence(ctx: Ctx) -> CorrResult:
         if mod != impl:
             res.disagreements.append(Disagreement(case={'op': name, **case, 'line': line}, model=mod, impl=impl,
                                                   name=f'correspondence:{name}'))
-    res.nontrivial += len(sink_cases) + len(get_cases)
+    res.nontrivial += len(sink_cases) + len(get_cases) + len(mget_cases) + len(rlinks)
     res.histogram = dict(hist)
     res.samples = [{'line': lines[0], 'model': out[0], 'impl': expect[0][2]},
                    {'line': lines[-1], 'model': out[-1], 'impl': expect[-1][2]}]
@@ -556,7 +703,7 @@ EVIL_PATHS = [b'//outside/secret.txt', b'/../outside/secret.txt', b'../outside/s
               b'/l/outside/secret.txt', b'/l/new', b'/sub', b'/sub/f', b'/f', b'/sub/d2', b'/d3',
               # siblings of the root whose names have the root's name as a string prefix
               b'//root-private/secret.txt', b'/../root-private/secret.txt', b'/../root2/secret.txt',
-              b'/l/root-private/secret.txt', b'/sub/l/secret.txt', b'/l/new2']
+              b'/l/root-private/secret.txt', b'/sub/l/secret.txt', b'/l/new2', b'/sub/x']
 
 
 def gen_history(rng: Any) -> List[Tuple[str, bytes, bytes]]:
@@ -567,6 +714,7 @@ def gen_history(rng: Any) -> List[Tuple[str, bytes, bytes]]:
         b = rng.choice(EVIL_PATHS) if rng.random() < 0.8 else gen_path(rng)
         if op == 'symlink' and rng.random() < 0.6:
             a = rng.choice([b'..', b'../..', b'../outside', b'.', b'../sub/..', b'/..', b'//outside', b'x/../..',
+                            b'x/../../outside',
                             b'../root-private', b'../../root-private', b'../root2', b'../../root2',
                             b'../root-private/secret.txt', b'../root/../root-private'])
         h.append((op, a, b))
@@ -683,6 +831,23 @@ def history_signature(history: List[Tuple[str, bytes, bytes]]) -> str:
             # a relative link created at a path that itself runs through an earlier link: it lands at the
             # physical location while the containment test was made lexically
             sig = 'sftp-server-escape:symlink-created-through-symlink'
+    generic = sig == 'sftp-server-escape:' + '+'.join(kinds)
+    if generic and rel_up:
+        sym = [(i, a, b) for i, (op, a, b) in enumerate(history) if op == 'symlink']
+        # (same root cause as the two above, other histories)  a relative link whose target names, before a `..`, a
+        # component that does not exist yet (so the containment test falls back to the lexical path) and that a
+        # LATER symlink creates
+        for i, a, b in sym:
+            if a.startswith(b'/') or b'..' not in a:
+                continue
+            parts = posixpath.join(posixpath.dirname(b), a).split(b'/')
+            prefixes = [posixpath.normpath(b'/'.join(parts[:k])) for k in range(1, len(parts)) if parts[k] == b'..']
+            if any(j > i and posixpath.normpath(posixpath.join(b'/', b2)) in prefixes for j, _a2, b2 in sym):
+                return SIG_LATER_COMPONENT
+        # a hard link of such a relative symlink made at another depth (os.link links the symlink itself)
+        locs = [posixpath.normpath(posixpath.join(b'/', b)) for _i, a, b in sym if not a.startswith(b'/') and b'..' in a]
+        if any(op == 'link' and posixpath.normpath(posixpath.join(b'/', a)) in locs for op, a, _b in history):
+            return SIG_HARDLINKED_SYMLINK
     return sig
 
 
@@ -690,6 +855,8 @@ HISTORY_CORPUS = [
     [('symlink', b'..', b'/sub/l'), ('rename', b'/sub/l', b'/l'), ('read', b'/l/outside/secret.txt', b'')],
     [('symlink', b'..', b'/sub/l'), ('posix_rename', b'/sub/l', b'/l'), ('write', b'/l/outside/new', b'')],
     [('symlink', b'/', b'/sub/sl'), ('symlink', b'../outside', b'/sub/sl/evil'), ('read', b'/sub/sl/evil/secret.txt', b'')],
+    [('symlink', b'x/../../outside', b'/sub/l'), ('symlink', b'/sub', b'/sub/x'), ('read', b'/sub/l/secret.txt', b'')],
+    [('symlink', b'..', b'/sub/l'), ('link', b'/sub/l', b'/l'), ('read', b'/l/outside/secret.txt', b'')],
     [('read', b'//outside/secret.txt', b'')],
     [('read', b'//../outside/secret.txt', b'')],
     [('write', b'//outside/new', b'')],
@@ -759,6 +926,12 @@ def oracle(ctx: Ctx) -> OracleResult:
     # (b) downloads from hostile peers -------------------------------------------------
     dl_failures = pair.run(_oracle_downloads(ctx, rng, scratch, hist, res), timeout=1500)
     res.failures += dl_failures
+    # one failing input per signature first (the runner prints the first few)
+    firsts: List[Failure] = []
+    rest: List[Failure] = []
+    for f in res.failures:
+        (rest if any(x.signature == f.signature for x in firsts) else firsts).append(f)
+    res.failures = firsts + rest
     res.histogram = dict(hist)
     res.samples = [{'history': [(op, a.decode('latin1'), b.decode('latin1')) for op, a, b in histories[0]]},
                    {'history': [(op, a.decode('latin1'), b.decode('latin1')) for op, a, b in histories[-1]]}]
@@ -817,6 +990,63 @@ async def _oracle_downloads(ctx: Ctx, rng: Any, scratch: str, hist: Hist, res: O
             fails.append(Failure(signature=sig,
                                  what=f'recursive SFTP get created {changed[:3]} outside the destination ({label})',
                                  replay={'kind': 'sftp-get-tree', 'tree': tree_tokens_full(tree), 'kinds': names}))
+    # glob download (mget): the local TOP-LEVEL names are derived from the names of the server's listing as well
+    mget_corpus: List[Tuple[bytes, List[Node]]] = [
+        (b'/src/*', [Node('F', b'ok.txt'), Node('D', b'x/..', [Node('F', b'pwn.txt'), Node('F', b'canary.txt')])]),
+        (b'/src/*.*', [Node('D', b'x/..', [Node('F', b'pwn2')])]),
+        (b'/src/**', [Node('D', b'x/..', [Node('F', b'pwn3')])]),
+        (b'/src/*', [Node('D', b'a/../..', [Node('D', b'outside', [Node('F', b'pwn4')])])]),
+        (b'/src/*', [Node('F', b'../pwn5')]),
+        (b'/src/*', [Node('D', b'../', [Node('F', b'pwn6')])]),
+        (b'/src/*/*', [Node('D', b'd', [Node('D', b'y/..', [Node('F', b'pwn7')])])]),
+        (b'/src/?*', [Node('D', b'sub', [Node('F', b'fine')]), Node('D', b'z/../..', [Node('F', b'pwn8')])]),
+    ]
+    for i in range(len(mget_corpus) + ctx.n(30, 400)):
+        base = os.path.join(scratch, f'mg{i}')
+        dest = os.path.join(base, 'outer', 'dest')
+        os.makedirs(dest)
+        os.makedirs(os.path.join(base, 'outside'))
+        with open(os.path.join(base, 'outer', 'canary.txt'), 'wb') as f:       # the user's own file next to `dest`
+            f.write(b'canary')
+        if i < len(mget_corpus):
+            pattern, tree = mget_corpus[i]
+        else:
+            pattern = rng.choice([b'/src/*', b'/src/*', b'/src/**', b'/src/?*', b'/src/[!q]*'])
+            tree = gen_tree(rng, 0, True)
+            if rng.random() < 0.5:
+                evil = rng.choice([b'x/..', b'x/../..', b'../', b'a/b/../../..', b'./..', b'x/../../outside', b'..//'])
+                kids = gen_tree(rng, 1, False) + [Node('F', b'planted')]
+                tree.insert(rng.randint(0, len(tree)), Node('D', evil, kids))
+        before = snapshot(base, skip=dest)
+        r = await run_mget(tree, dest, pattern)
+        after = snapshot(base, skip=dest)
+        res.evaluations += 1
+        hist.hit('mget:' + r.split(':')[0])
+        if after != before:
+            changed = sorted(k for k in set(after) | set(before) if after.get(k) != before.get(k))
+            fails.append(Failure(signature=SIG_MGET,
+                                 what=f'sftp.mget({pattern.decode()!r}, dest, recurse=True) created or modified {changed[:3]} '
+                                      f'OUTSIDE the destination: a name of the server\'s listing such as "x/.." matches the '
+                                      f'pattern and its basename ".." becomes the local top-level name '
+                                      f'(listing {[(n.kind, n.name.decode("latin1")) for n in tree][:4]})',
+                                 replay={'kind': 'sftp-mget-tree', 'tree': tree_tokens_full(tree),
+                                         'pattern': pattern.hex()}))
+
+    # readlink on a chrooted server must not depend on what lies in the server's current directory
+    for i, (target, decoy_name) in enumerate([(b'file.txt', 'file.txt'), (b'../file.txt', 'file.txt'),
+                                              (b'deep/g', 'deep')]):
+        base = os.path.realpath(os.path.join(scratch, f'rlp{i}'))
+        os.makedirs(base)
+        answers = await readlink_probe(base, target, decoy_name)
+        res.evaluations += 1
+        hist.hit('readlink-cwd:' + ('same' if len(set(answers.values())) == 1 else 'DIFFERENT'))
+        if len(set(answers.values())) != 1:
+            fails.append(Failure(signature=SIG_READLINK_CWD,
+                                 what=f'chrooted server, link /sub/l -> {target.decode()!r}: readlink(\'/sub/l\') answers '
+                                      f'{answers} depending on the current directory of the server process — the relative '
+                                      f'target is resolved (lstat/readlink) against objects outside the chroot',
+                                 replay={'kind': 'readlink-cwd', 'target': target.hex(), 'decoy': decoy_name}))
+
     # SCP sink
     for i in range(ctx.n(40, 600)):
         base = os.path.join(scratch, f'scp{i}')
@@ -864,6 +1094,39 @@ async def _oracle_downloads(ctx: Ctx, rng: Any, scratch: str, hist: Hist, res: O
     return fails
 
 
+async def readlink_probe(base: str, target: bytes, decoy_name: str) -> Dict[str, str]:
+    """the same readlink request with the server process in two different directories OUTSIDE the chroot: an empty
+    one, and one that holds a symlink named like the first component of the target, pointing into the chroot"""
+    root = os.path.join(base, 'root')
+    os.makedirs(os.path.join(root, 'sub', 'deep'))
+    for rel in ('file.txt', 'sub/file.txt', 'sub/deep/g'):
+        with open(os.path.join(root, rel), 'wb') as f:
+            f.write(b'x')
+    os.symlink(target, os.path.join(root, 'sub', 'l'))
+    plain, decoy = os.path.join(base, 'cwd-plain'), os.path.join(base, 'cwd-decoy')
+    os.makedirs(plain)
+    os.makedirs(decoy)
+    os.symlink(os.path.join(root, 'sub'), os.path.join(decoy, decoy_name))
+    answers: Dict[str, str] = {}
+    c, s, hub = await pair.make_pair(server_opts=dict(sftp_factory=lambda chan: sftpmod.SFTPServer(chan, chroot=os.fsencode(root))))
+    old = os.getcwd()
+    try:
+        async with c.start_sftp_client() as sftp:
+            for label, cwd in (('plain', plain), ('decoy', decoy)):
+                os.chdir(cwd)
+                try:
+                    answers[label] = os.fsdecode(await sftp.readlink(b'/sub/l'))
+                except sftpmod.SFTPError as e:
+                    answers[label] = 'error:' + type(e).__name__
+                finally:
+                    os.chdir(old)
+    finally:
+        os.chdir(old)
+        c.abort()
+        await pair.settle(10)
+    return answers
+
+
 def tree_tokens_full(tree: List[Node]) -> List[Any]:
     return [[n.kind, n.name.hex(), n.target.hex(), tree_tokens_full(n.children)] for n in tree]
 
@@ -879,6 +1142,17 @@ def replay(ctx: Ctx, rep: Dict[str, Any]) -> List[Failure]:
         h = [(op, bytes.fromhex(a), bytes.fromhex(b)) for op, a, b in r['history']]
         leaks = pair.run(run_history(base, h))
         return [Failure(history_signature(h), str(leaks), r)] if leaks else []
+    if r.get('kind') == 'readlink-cwd':
+        answers = pair.run(readlink_probe(os.path.realpath(base), bytes.fromhex(r['target']), r['decoy']))
+        return [Failure(SIG_READLINK_CWD, str(answers), r)] if len(set(answers.values())) != 1 else []
+    if r.get('kind') == 'sftp-mget-tree':
+        dest = os.path.join(base, 'outer', 'dest')
+        os.makedirs(dest)
+        with open(os.path.join(base, 'outer', 'canary.txt'), 'wb') as f:
+            f.write(b'canary')
+        before = snapshot(base, skip=dest)
+        pair.run(run_mget(tree_from_tokens(r['tree']), dest, bytes.fromhex(r['pattern'])))
+        return [Failure(SIG_MGET, 'created paths outside destination', r)] if snapshot(base, skip=dest) != before else []
     if r.get('kind') in ('sftp-get-tree', 'scp-records'):
         dest = os.path.join(base, 'outer', 'dest')
         mode = r.get('dest_mode', 'dir')
